@@ -36,6 +36,7 @@ class RunResult:
         self.out = p.stdout or ""
         self.err = p.stderr or ""
         self.secs = secs
+        self.deadlock = False
 
     def ending(self):
         if self.timed_out:
@@ -45,10 +46,56 @@ class RunResult:
         return "exit %d" % self.rc
 
 
-def run_prog(exe, args=(), flags="", env=None, timeout=60, cwd=None):
+def _all_asleep(pid):
+    """(every thread of the process sleeps, total cpu ticks) - None if the process is gone"""
+    try:
+        tot = 0; asleep = True
+        for t in os.listdir(f"/proc/{pid}/task"):
+            f = open(f"/proc/{pid}/task/{t}/stat").read()
+            rest = f[f.rindex(")") + 2:].split()
+            if rest[0] not in ("S", "I"):
+                asleep = False
+            tot += int(rest[11]) + int(rest[12])
+        return asleep, tot
+    except (OSError, ValueError, IndexError):
+        return None
+
+
+def run_prog(exe, args=(), flags="", env=None, timeout=60, cwd=None, deadlock_s=None):
+    """deadlock_s: end the run early (RunResult.deadlock) when ALL threads have been asleep without consuming any cpu time for that
+    many seconds - only for programs that never sleep on timers or wait for input (load on the machine cannot cause it: a thread
+    waiting for a cpu is runnable, not asleep)"""
     e = {"DORA_FLAGS": flags}
     if env:
         e.update(env)
     t0 = time.time()
-    p = sh([exe] + list(args), timeout=timeout, env=e, cwd=cwd)
-    return RunResult(p, time.time() - t0)
+    if deadlock_s is None:
+        p = sh([exe] + list(args), timeout=timeout, env=e, cwd=cwd)
+        return RunResult(p, time.time() - t0)
+    ee = dict(os.environ); ee.update(e)
+    import tempfile
+    with tempfile.TemporaryFile("w+") as fo, tempfile.TemporaryFile("w+") as fe:
+        pr = subprocess.Popen([exe] + list(args), env=ee, cwd=cwd, stdout=fo, stderr=fe)
+        quiet_since = None; last = None; dead = False; timed = False
+        while pr.poll() is None:
+            time.sleep(0.25)
+            if time.time() - t0 > timeout:
+                timed = True; pr.kill(); pr.wait(); break
+            st = _all_asleep(pr.pid)
+            if st is None:
+                continue
+            if st[0] and st[1] == last:
+                quiet_since = quiet_since or time.time()
+                if time.time() - quiet_since >= deadlock_s:
+                    dead = True; pr.kill(); pr.wait(); break
+            else:
+                quiet_since = None
+            last = st[1]
+        fo.seek(0); fe.seek(0)
+
+        class R:  # noqa
+            returncode = pr.returncode if not (dead or timed) else -999
+            stdout = fo.read(); stderr = fe.read(); timed_out = dead or timed
+    r = RunResult(R(), time.time() - t0)
+    r.deadlock = dead
+    return r
